@@ -4,22 +4,22 @@ namespace Ufo2ft.C06
 open List
 
 theorem mkmkAtts_mem {al : AList} {mg : List String} {km : List (String × String)} {g : String} {as : List NA}
-    (h : (g, as) ∈ al) (hmg : g ∈ mg) {a : NA} (ha : a ∈ as) (hn : a.number = none) {c : String}
+    (h : (g, as) ∈ al) (hmg : g ∈ mg) {a : NA} (ha : a ∈ as) (hp : a.ctx = none) (hn : a.number = none) {c : String}
     (hc : classOf km a = some c) : (a.key, g, (⟨a, c⟩ : BAnchor)) ∈ mkmkAtts al mg km := by
   refine mem_flatMap.mpr ⟨(g, as), h, ?_⟩
   have : mg.contains g = true := by simpa using hmg
   simp only [this, Bool.not_true, Bool.false_eq_true, if_false]
-  exact mem_filterMap.mpr ⟨a, ha, by simp [hn, hc]⟩
+  exact mem_filterMap.mpr ⟨a, mem_plainOf_of ha hp, by simp [hn, hc]⟩
 
 /-- mark-to-mark: for a pair whose base side is itself a mark glyph -/
 theorem mkmk_attach {i : Input} {al : AList} (w : ALwf i al) {b m : String} {ab am : NA} (p : Pair al b m ab am)
-    (hok : markOK i m = true) (hnum : ab.number = none) (hmg : b ∈ mgOf i al)
+    (hok : markOK i m = true) (hpl : ab.ctx = none) (hnum : ab.number = none) (hmg : b ∈ mgOf i al)
     (feat : String) (inc : String → Bool) (mf : NA → Bool) (hinc : inc b = true) (hmf : mf ab = true) :
     ∃ L ∈ mkmkLookups feat inc mf (maOf i al), (attachLookup (build i al) L b m none).isSome = true := by
   have hcl := pair_classOf w p hok
   obtain ⟨recs, hcls, r, hr, hrg⟩ := pair_class w p hok
   obtain ⟨as', has', hab'⟩ := pair_prune_b w p
-  have ht0 : (ab.key, b, (⟨ab, "MC" ++ am.name⟩ : BAnchor)) ∈ maOf i al := mkmkAtts_mem has' hmg hab' hnum hcl
+  have ht0 : (ab.key, b, (⟨ab, "MC" ++ am.name⟩ : BAnchor)) ∈ maOf i al := mkmkAtts_mem has' hmg hab' hpl hnum hcl
   generalize hes : ((maOf i al).filter (fun t => t.1 == ab.key && inc t.2.1 && mf t.2.2.a)).map (fun t =>
       (⟨t.2.1, [compAST [t.2.2]]⟩ : Entry)) = es
   -- every entry of this lookup refers to the class of the pair
